@@ -24,7 +24,11 @@ comparisons skipped).
 import numpy as np
 
 from vf import resolve as rs
-from vf.runner import Skip
+
+
+class Skip(Exception):
+    """oracle precondition not met (reported through ck.skip)"""
+
 
 META = dict(
     id="C15", level="exploration",
@@ -52,7 +56,7 @@ META = dict(
     need=["eager_runs", "static_runs", "criterion_checks", "eager_static_comparisons",
           "nonpd_raise_checks", "nonpd_energy_checks", "fallback_checks", "at_limit_cases",
           "trace_events"],
-    quick=dict(cases=420, workers=8, budget_s=75),
+    quick=dict(cases=320, workers=8, budget_s=90),
     thorough=dict(cases=6000, workers=16, budget_s=780),
     design_ref="DESIGN.md §5 C15",
     level_text=("generated systems x stopping configurations x non-PD classes, every result re-judged "
@@ -84,10 +88,10 @@ def init(ck):
 
 
 # ------------------------------------------------------------------ structure ---
-def draw_structure(rng, thorough):
+def draw_structure(rng, pool):
     s = {}
     s["klass"] = str(rng.choice(["hpd", "limit", "exact", "nonpd"], p=[0.4, 0.22, 0.05, 0.33]))
-    s["layout"] = str(rng.choice(rs.ALL_LAYOUTS))
+    s["layout"] = str(rng.choice(pool))
     s["x0"] = bool(rng.integers(0, 2)) or s["klass"] == "exact"
     s["crit"] = str(rng.choice(["res", "abs", "both", "tol"], p=[0.35, 0.25, 0.2, 0.2]))
     s["miniter"] = bool(rng.integers(0, 3) > 0)
@@ -188,7 +192,8 @@ def draw_system(rng, s):
         p = rng.permutation(n)
         evz = evz[p]
         A = np.diag(evz).astype(lay.dtype)
-        j = np.where(evz == 0.0, np.round(vec(3.0).real) + 1.0, 0.0).astype(lay.dtype)
+        j = np.where(evz == 0.0, (np.round(np.abs(vec(3.0).real)) + 1.0) * np.where(rng.random(n) < 0.5, -1, 1),
+                     0.0).astype(lay.dtype)
         desc["nzero"] = nz
     else:
         A = rs.herm_from_spectrum(rng, ev, cplx, basis)
@@ -217,7 +222,7 @@ def draw_config(rng, s, A, j, x0, n):
     if s["crit"] in ("res", "both"):
         cfg["resnorm"] = float(10 ** rng.uniform(-8.5, -1.0) * nj)
     if s["crit"] in ("abs", "both"):
-        cfg["absdelta"] = float(10 ** rng.uniform(-9.0, -1.0) * escale)
+        cfg["absdelta"] = float(10 ** rng.uniform(-8.0, -1.0) * escale)
     if s["crit"] == "tol":
         if rng.integers(0, 2):
             cfg["tol"] = float(10 ** rng.uniform(-8.5, -1.5))
@@ -239,12 +244,14 @@ def eff_resnorm(cfg, j, ord_):
 
 
 # -------------------------------------------------------------------- running ---
-def run_eager(ck, s, lay, A, j, x0, cfg, name="E", public=False, maxiter=None):
+def run_eager(ck, s, lay, A, j, x0, cfg, name="E", public=False, maxiter=None, miniter=None):
     st = ck.state
     jnp, cgm = st["jnp"], st["cgm"]
     kw = dict(cfg)
     if maxiter is not None:
         kw["maxiter"] = maxiter
+    if miniter is not None:
+        kw["miniter"] = miniter
     if ORDS[s["ord"]] is not None:
         kw["norm_ord"] = ORDS[s["ord"]]
     kw["_raise_nonposdef"] = s["raise"]
@@ -270,12 +277,14 @@ def run_eager(ck, s, lay, A, j, x0, cfg, name="E", public=False, maxiter=None):
                 trace=st["trace"].pop("E", []))
 
 
-def run_static(ck, s, lay, A, j, x0, cfg, maxiter=None):
+def run_static(ck, s, lay, A, j, x0, cfg, maxiter=None, miniter=None):
     st = ck.state
     f = get_static(ck, s)
     nums = dict(cfg)
     if maxiter is not None:
         nums["maxiter"] = maxiter
+    if miniter is not None:
+        nums["miniter"] = miniter
     st["trace"].pop("S", None)
     ck.hit("static_runs")
     x, info, nit = f(A, j, x0 if x0 is not None else np.zeros_like(j), nums)
@@ -285,15 +294,27 @@ def run_static(ck, s, lay, A, j, x0, cfg, maxiter=None):
 
 
 # --------------------------------------------------------------------- oracle ---
-def trace_ties(trace, cfg, resn, miniter_known):
-    """True if some recorded iteration came within the tie margin of a threshold"""
+def trace_ties(trace, cfg, resn, ptrace=None):
+    """True if some recorded iteration came within the tie margin of a threshold.  The margin is
+    1e-7 relative, widened to 100x the deviation that a 1e-14 relative perturbation of the right
+    hand side produced at the same iteration of the real eager solver (``ptrace``): CG amplifies
+    rounding-level differences, and two executions cannot agree better than that."""
+    dp = {t[0]: t for t in (ptrace or [])}
     for (i, e, de, nrm) in trace:
         if i == 0:
             continue
-        if resn is not None and nrm is not None and rs.near(nrm, resn):
-            return True
-        if "absdelta" in cfg and de is not None and np.isfinite(de) and rs.near(de, cfg["absdelta"]):
-            return True
+        p = dp.get(i)
+        for val, thr, k in ((nrm, resn, 3), (de, cfg.get("absdelta"), 2)):
+            if thr is None or val is None or not np.isfinite(val):
+                continue
+            m = rs.TIE * max(abs(val), abs(thr))
+            if ptrace is not None:
+                if p is None or p[k] is None or not np.isfinite(p[k]):
+                    m = 1e-2 * max(abs(val), abs(thr))
+                else:
+                    m += 100 * abs(val - p[k])
+            if abs(val - thr) <= m:
+                return True
     return False
 
 
@@ -302,17 +323,29 @@ def floor_hit(trace):
     for (i, e, de, nrm) in trace:
         if i == 0 or de is None or e is None or not np.isfinite(de):
             continue
-        if de < 1e-12 * abs(e) and abs(de) < 1e-11 * abs(e):
+        if abs(de) < 1e-11 * abs(e):
             return True
     return False
 
 
+def first_step_deviation(te, ts):
+    """deviation of energy / norm after the first iteration relative to the start values"""
+    de = {t[0]: t for t in te}
+    ds = {t[0]: t for t in ts}
+    if 0 not in de or 1 not in de or 1 not in ds or max(de) < 2 or max(ds) < 2:
+        return None
+    esc = max(abs(de[0][1]), abs(de[1][1]), 1e-300)
+    d = abs(de[1][1] - ds[1][1]) / esc
+    if de[1][3] is not None and ds[1][3] is not None and de[0][3]:
+        d = max(d, abs(de[1][3] - ds[1][3]) / de[0][3])
+    return d
+
+
 def criterion(A, j, x, xprev, cfg, resn, ord_, nit, miniter):
-    """(clearly met, clearly not met) of the stopping criterion at the final iterate"""
+    """(clearly met, clearly not met, true residual norm, solved to rounding level)"""
     nj = rs.pnorm(j, ord_) + 1e-300
     drift = 1e-10 * nj
     res = rs.pnorm(A @ x - j, ord_)
-    met = notmet = None
     flags_met, flags_not = [], []
     if resn is not None:
         flags_met.append(res < resn * (1 - 1e-6) - drift)
@@ -323,14 +356,14 @@ def criterion(A, j, x, xprev, cfg, resn, ord_, nit, miniter):
             flags_not.append(False)      # unknown
         else:
             E1, E0 = rs.quad_energy(A, j, x), rs.quad_energy(A, j, xprev)
-            slack = 1e-12 * (abs(E1) + abs(E0)) + 1e-300
+            slack = 1e-11 * (abs(E1) + abs(E0) + np.linalg.norm(j) * np.linalg.norm(x)) + 1e-300
             de = E0 - E1
             flags_met.append(de >= -slack and de < cfg["absdelta"] * (1 - 1e-6) - slack)
             flags_not.append(de >= cfg["absdelta"] * (1 + 1e-6) + slack)
     met = any(flags_met) and (nit < 0 or nit >= miniter)
     notmet = all(flags_not) or (0 <= nit < miniter)
     tiny = res <= 1e-12 * nj          # solved to rounding level (the 'gamma = 0' exit)
-    return met or tiny, (notmet and not tiny), res
+    return met, (notmet and not tiny), res, tiny
 
 
 def default_miniter(cfg, n):
@@ -339,7 +372,10 @@ def default_miniter(cfg, n):
     return min(6, cfg["maxiter"] if "maxiter" in cfg else 20 * n)
 
 
-def judge_hpd(ck, tag, res, A, j, x0v, xprev, cfg, resn, ord_, n, tie, at_limit):
+LIMKEY = "converged-at-maxiter-reported-as-failure"
+
+
+def judge_hpd(ck, tag, res, A, j, x0, xprev, cfg, resn, ord_, n, tie):
     """checks on one variant's result for an HPD system; returns True if clean"""
     if res["exc"] is not None or res["info"] < 0:
         if floor_hit(res["trace"]) or tie:
@@ -350,10 +386,11 @@ def judge_hpd(ck, tag, res, A, j, x0v, xprev, cfg, resn, ord_, n, tie, at_limit)
         return False
     nit, info = res["nit"], res["info"]
     miniter = default_miniter(cfg, n)
-    met, notmet, rn = criterion(A, j, res["x"], xprev, cfg, resn, ord_, nit, miniter)
+    met, notmet, rn, tiny = criterion(A, j, res["x"], xprev, cfg, resn, ord_, nit, miniter)
+    res["tiny"] = tiny
     ck.hit("criterion_checks")
     if info == 0:
-        if nit == 0 and x0v is not None and np.all(A @ x0v == j):
+        if nit == 0 and x0 is not None and np.all(A @ x0 == j):
             return True
         if notmet and not tie:
             ck.violation(f"cg-{tag}:success-without-criterion",
@@ -366,25 +403,84 @@ def judge_hpd(ck, tag, res, A, j, x0v, xprev, cfg, resn, ord_, n, tie, at_limit)
         ck.violation(f"cg-{tag}:info-not-iteration-count", "info > 0 but != nit", info=info, nit=nit)
         return False
     if met and not tie:
-        mx = cfg.get("maxiter")
-        lim = (mx is not None and info == mx)
-        key = "converged-at-maxiter-reported-as-failure" if lim else "failure-despite-criterion"
+        lim = cfg.get("maxiter") is not None and info == cfg["maxiter"]
+        key = LIMKEY if lim else "failure-despite-criterion"
         ck.violation(f"cg-{tag}:{key}",
-                     f"{tag} CG returned info={info} (>0, failure) although the requested criterion "
-                     f"holds at the returned x" + (" reached exactly at the iteration limit" if lim else ""),
+                     f"{tag} CG returned info={info} (>0 = failure) although the requested criterion "
+                     f"holds at the returned x" + (", reached exactly at the iteration limit" if lim else ""),
                      true_resnorm=rn, resnorm=resn, cfg=cfg, nit=nit)
         return False
     return True
 
 
+def compare(ck, eg, sg, x0v, cfg, resn, pert, label="eager-vs-static"):
+    """eager vs compiled: same info, nit and x.  CG amplifies rounding differences between two
+    executions (strongly once orthogonality is lost), so the comparison is calibrated by the real
+    solver itself: ``pert`` is the eager run with the right hand side perturbed by 1e-14 relative.
+    Discrete results are compared unless the perturbed run already decides differently or a
+    threshold tie (margin widened by the perturbation response) is visible in a trace; x is
+    compared with tolerance 1e-9*scale + 100 * |x_perturbed - x|."""
+    fd = first_step_deviation(eg["trace"], sg["trace"])
+    if fd is not None:
+        ck.hit("trace_comparisons")
+        if fd > 1e-9:
+            ck.violation(f"cg:{label}-first-iteration",
+                         "energy / residual norm after the first iteration differ between eager and "
+                         "compiled CG", rel_dev=fd, cfg=cfg)
+            return
+    if pert is not None:
+        if pert["exc"] is not None or pert["info"] != eg["info"] or pert["nit"] != eg["nit"]:
+            ck.hit("unstable_decision_skipped")
+            return
+        ptr = pert["trace"]
+        D = float(np.abs(pert["x"] - eg["x"]).max())
+    else:
+        ptr, D = None, 0.0
+    if trace_ties(eg["trace"], cfg, resn, ptr) or trace_ties(sg["trace"], cfg, resn, ptr):
+        ck.hit("tie_skipped_comparisons")
+        return
+    ck.hit("eager_static_comparisons")
+    sc = np.abs(eg["x"]).max() + np.abs(x0v).max() + 1e-300
+    d = float(np.abs(eg["x"] - sg["x"]).max())
+    floor = eg.get("tiny") or sg.get("tiny") or floor_hit(eg["trace"]) or floor_hit(sg["trace"])
+    if not floor:
+        if eg["info"] != sg["info"]:
+            mx = cfg.get("maxiter")
+            if eg["info"] == 0 and mx is not None and sg["info"] == mx and label == "eager-vs-static":
+                ck.violation(f"cg-static:{LIMKEY}",
+                             "compiled CG reports info=maxiter (failure) for a solve that the eager CG "
+                             "finishes with info=0 in exactly maxiter iterations", eager=0,
+                             static=sg["info"], cfg=cfg)
+            else:
+                ck.violation(f"cg:{label}-info", "eager and compiled CG return different info",
+                             eager=eg["info"], static=sg["info"], cfg=cfg)
+            return
+        if eg["nit"] >= 0 and sg["nit"] >= 0 and eg["nit"] != sg["nit"]:
+            ck.violation(f"cg:{label}-nit", "eager and compiled CG take different iteration counts",
+                         eager=eg["nit"], static=sg["nit"], cfg=cfg)
+            return
+    elif eg["info"] != sg["info"] or eg["nit"] != sg["nit"]:
+        ck.hit("floor_skipped_discrete_comparisons")
+        return
+    if d > 1e-9 * sc + 100 * D:
+        ck.violation(f"cg:{label}-x", "eager and compiled CG return different solutions",
+                     maxdev=d, scale=float(sc), perturbation_response=D, cfg=cfg)
+
+
 def case(ck, i):
+    try:
+        _case(ck, i)
+    except Skip as e:
+        ck.skip(str(e))
+
+
+def _case(ck, i):
     st = ck.state
-    thorough = ck.thorough()
     r = i % 16
-    u = int(ck.rng().integers(0, ck.pick(5, 60)))
-    s = draw_structure(ck.rng(100000 + r, u), thorough)
-    rng = ck.rng()
-    rng.integers(0, 10)        # decouple from u
+    u = int(ck.rng().integers(0, ck.pick(4, 60)))
+    pool = [rs.ALL_LAYOUTS[(3 * r + k) % len(rs.ALL_LAYOUTS)] for k in range(3)]
+    s = draw_structure(ck.rng(100000 + r, u), pool)
+    rng = ck.rng(i, 1)
     lay = rs.layout(s["layout"])
     n = lay.n
     A, j, x0, sdesc = draw_system(rng, s)
@@ -401,13 +497,11 @@ def case(ck, i):
     if s["klass"] == "limit":
         cfg0 = dict(cfg)
         cfg0["maxiter"] = 40 * n + 10
-        s0 = dict(s, raise_=s["raise"])
         probe = run_eager(ck, s, lay, A, j, x0, cfg0)
         if probe["exc"] is not None or probe["info"] != 0 or probe["nit"] < 1:
             raise Skip("probe did not converge in >= 1 iterations")
         k = probe["nit"]
-        which = int(rng.integers(0, 4))
-        cfg["maxiter"] = [k, k, max(k - 1, 1), k + 1][which]
+        cfg["maxiter"] = [k, k, max(k - 1, 1), k + 1][int(rng.integers(0, 4))]
         at_limit = cfg["maxiter"] == k
         desc["cfg"]["maxiter"] = cfg["maxiter"]
         desc["k"] = k
@@ -417,66 +511,83 @@ def case(ck, i):
     eg = run_eager(ck, s, lay, A, j, x0, cfg, public=s["public"])
     sg = run_static(ck, s, lay, A, j, x0, cfg)
     ck.hit("trace_events", len(eg["trace"]) + len(sg["trace"]))
+    # iteration counts hidden by the public wrappers are recovered from the traces
+    for res in (eg, sg):
+        if res["exc"] is None and res["nit"] < 0:
+            res["nit"] = max([t[0] for t in res["trace"]] + [0]) if res["trace"] else -1
+    # calibration: the real eager solver on a right hand side perturbed at rounding level
+    pert = None
+    if s["klass"] not in ("exact",) and s.get("kind") != "zero" and eg["exc"] is None:
+        jp = j * (1.0 + 1e-14 * rng.standard_normal(n))
+        pert = run_eager(ck, dict(s, public=False), lay, A, jp, x0, cfg, name="E")
+        ck.hit("perturbation_runs")
+    ptr = pert["trace"] if pert is not None and pert["exc"] is None else None
+    tie = trace_ties(eg["trace"], cfg, resn, ptr) or trace_ties(sg["trace"], cfg, resn, ptr)
+    stable = pert is None or (pert["exc"] is None and pert["info"] == eg["info"]
+                              and pert["nit"] == eg["nit"])
+
     extra = int(rng.integers(0, 8))
     if extra == 0:           # name must not influence the result
         e2 = run_eager(ck, s, lay, A, j, x0, cfg, name=None, public=s["public"])
         ck.hit("name_independence_checks")
         same = (e2["exc"] is None) == (eg["exc"] is None) and (
-            eg["exc"] is not None or (e2["info"] == eg["info"] and e2["nit"] == eg["nit"]
-                                      and np.array_equal(e2["x"], eg["x"])))
+            eg["exc"] is not None or (e2["info"] == eg["info"] and np.array_equal(e2["x"], eg["x"])
+                                      and (e2["nit"] < 0 or e2["nit"] == eg["nit"])))
         if not same:
             ck.violation("cg-eager:name-changes-result", "result with name=None differs from named run",
                          named=dict(info=eg.get("info"), nit=eg.get("nit")),
                          unnamed=dict(info=e2.get("info"), nit=e2.get("nit")))
-    elif extra == 1 and ck.time_left() > 20:   # un-jitted call of the compiled variant
+    elif extra == 1 and ck.time_left() > 20 and s["named"] and sg["info"] >= 0:
+        # un-jitted call of the compiled variant, exactly like the eager one is called
         kw = dict(cfg)
         if ord_ is not None:
             kw["norm_ord"] = ord_
         jnp, cgm = st["jnp"], st["cgm"]
+        st["trace"].pop("S", None)
         r2 = cgm._static_cg(lay.matfun(jnp.asarray(A)), lay.wrap(np.asarray(j)),
                             lay.wrap(np.asarray(x0)) if x0 is not None else None,
-                            _raise_nonposdef=s["raise"], **kw)
+                            _raise_nonposdef=s["raise"], name="S", **kw)
+        st["jax"].effects_barrier()
         ck.hit("static_unjitted_runs")
-        x2 = lay.flat_np(r2.x)
-        sc = np.abs(sg["x"]).max() + np.abs(x0v).max() + 1e-300
-        if int(r2.info) != sg["info"] or (sg["nit"] >= 0 and int(r2.nit) != sg["nit"]) or \
-                np.abs(x2 - sg["x"]).max() > 1e-7 * sc:
-            if not trace_ties(sg["trace"] or eg["trace"], cfg, resn, None):
-                ck.violation("cg-static:jit-vs-unjitted", "_static_cg inside jax.jit and called directly differ",
-                             jit=dict(info=sg["info"], nit=sg["nit"]),
-                             direct=dict(info=int(r2.info), nit=int(r2.nit)))
+        d2 = dict(x=lay.flat_np(r2.x), info=int(r2.info), nit=int(r2.nit), exc=None,
+                  trace=st["trace"].pop("S", []))
+        if d2["info"] >= 0:
+            compare(ck, dict(sg), d2, x0v, cfg, resn, pert if stable and sg["nit"] == eg.get("nit")
+                    and sg["info"] == eg.get("info") else dict(exc="unstable"),
+                    label="static-jit-vs-direct")
 
-    tie = trace_ties(eg["trace"], cfg, resn, None) or trace_ties(sg["trace"], cfg, resn, None)
     nontrivial = False
     clean = True
-
     if s["klass"] in ("hpd", "limit", "exact"):
         # previous iterate from the real eager solver (for the energy-decrease criterion)
         xprev = None
-        nit_e = eg.get("nit", -1) if eg["exc"] is None else -1
-        if s["public"] and eg["exc"] is None:
-            # public wrapper hides nit: recover it from the trace (last recorded iteration)
-            nit_e = max([t[0] for t in eg["trace"]] + [0])
+        nit_e = eg["nit"] if eg["exc"] is None else -1
         if "absdelta" in cfg and nit_e >= 1:
             if nit_e == 1:
                 xprev = x0v
             else:
-                pr = run_eager(ck, dict(s, public=False), lay, A, j, x0, cfg, maxiter=nit_e - 1)
+                pr = run_eager(ck, dict(s, public=False), lay, A, j, x0, cfg, maxiter=nit_e - 1,
+                               miniter=10 ** 6)
                 if pr["exc"] is None and pr["nit"] == nit_e - 1:
                     xprev = pr["x"]
-        ce = judge_hpd(ck, "eager", dict(eg, nit=nit_e if eg["exc"] is None else -1), A, j, x0, xprev,
-                       cfg, resn, ord_, n, tie, at_limit)
-        nit_s = sg["nit"]
-        if nit_s < 0:
-            nit_s = max([t[0] for t in sg["trace"]] + [0]) if sg["trace"] else nit_e
-        xprev_s = xprev if nit_s == nit_e else None
-        cs = judge_hpd(ck, "static", dict(sg, nit=nit_s), A, j, x0, xprev_s, cfg, resn, ord_, n, tie,
-                       at_limit)
+        ce = judge_hpd(ck, "eager", eg, A, j, x0, xprev, cfg, resn, ord_, n, tie)
+        xprev_s = None
+        if "absdelta" in cfg and sg["nit"] >= 1 and sg["info"] >= 0:
+            if sg["nit"] == 1:
+                xprev_s = x0v
+            elif s["maxiter"] and s["miniter"] and not s["public"]:
+                ps = run_static(ck, s, lay, A, j, x0, cfg, maxiter=sg["nit"] - 1, miniter=10 ** 6)
+                if ps["nit"] == sg["nit"] - 1 and ps["info"] >= 0:
+                    xprev_s = ps["x"]
+            elif sg["nit"] == nit_e and stable and pert is not None and \
+                    np.abs(pert["x"] - eg["x"]).max() <= 1e-9 * (np.abs(eg["x"]).max() + 1e-300):
+                xprev_s = xprev
+        cs = judge_hpd(ck, "static", sg, A, j, x0, xprev_s, cfg, resn, ord_, n, tie)
         clean = ce and cs
         if at_limit:
             ck.hit("at_limit_cases")
-        if clean and eg["exc"] is None:
-            compare(ck, eg, sg, s, x0v, tie, cfg)
+        if clean:
+            compare(ck, eg, sg, x0v, cfg, resn, pert)
             nontrivial = nit_e >= 2 or at_limit
     else:
         nontrivial = True
@@ -503,13 +614,14 @@ def case(ck, i):
                                  "the first search direction has non-positive curvature",
                                  info=sg["info"], c1=c1)
             else:
-                if e_fail != s_fail and not tie and not floor_hit(sg["trace"]) \
-                        and not floor_hit(eg["trace"]):
-                    ck.violation("cg:eager-vs-static-failure-verdict",
-                                 "eager raised != compiled returned info=-1 on an indefinite system",
-                                 eager_exc=eg["exc"], static_info=sg["info"])
-                elif not e_fail and not s_fail:
-                    compare(ck, eg, sg, s, x0v, tie, cfg)
+                unstable = tie or floor_hit(sg["trace"]) or floor_hit(eg["trace"]) or not stable
+                if e_fail != s_fail:
+                    if not unstable:
+                        ck.violation("cg:eager-vs-static-failure-verdict",
+                                     "eager raised != compiled returned info=-1 on an indefinite system",
+                                     eager_exc=eg["exc"], static_info=sg["info"])
+                elif not e_fail:
+                    compare(ck, eg, sg, x0v, cfg, resn, pert)
         else:
             for tag, res in (("eager", eg), ("static", sg)):
                 if res["exc"] is not None or res["info"] < 0:
@@ -524,11 +636,10 @@ def case(ck, i):
                     ck.hit("fallback_checks")
                     step = res["x"] - x0v
                     c, mis = rs.parallel_coeff(step, -r0)
-                    nostep = np.abs(step).max() <= 1e-14 * (np.abs(x0v).max() + np.abs(res["x"]).max() + 1e-300)
-                    ok = (not nostep) and c > 0 and mis <= 1e-8 and E1 < E0
-                    if not ok:
-                        how = ("no step taken" if nostep else
-                               "energy raised" if E1 > E0 else
+                    nostep = np.abs(step).max() <= 1e-14 * (np.abs(x0v).max() + np.abs(res["x"]).max()
+                                                            + 1e-300)
+                    if nostep or c <= 0 or mis > 1e-8 or E1 >= E0:
+                        how = ("no step taken" if nostep else "energy raised" if E1 > E0 else
                                "step not along +(j - A x0)")
                         ck.violation(f"cg-{tag}:negcurv-first-direction-fallback",
                                      f"{tag} CG, first direction with negative curvature, "
@@ -545,36 +656,5 @@ def case(ck, i):
                                      info=res["info"], nit=res["nit"])
                         clean = False
             if clean:
-                compare(ck, eg, sg, s, x0v, tie, cfg)
+                compare(ck, eg, sg, x0v, cfg, resn, pert)
     ck.note(desc, nontrivial=nontrivial, klass=klass)
-
-
-def compare(ck, eg, sg, s, x0v, tie, cfg):
-    """eager vs compiled: same info, nit and x unless a tie was visible in the traces"""
-    if tie:
-        ck.hit("tie_skipped_comparisons")
-        return
-    ck.hit("eager_static_comparisons")
-    if eg["info"] != sg["info"]:
-        ck.violation("cg:eager-vs-static-info", "eager and compiled CG return different info",
-                     eager=eg["info"], static=sg["info"], cfg=cfg)
-        return
-    if eg["nit"] >= 0 and sg["nit"] >= 0 and eg["nit"] != sg["nit"]:
-        ck.violation("cg:eager-vs-static-nit", "eager and compiled CG take different iteration counts",
-                     eager=eg["nit"], static=sg["nit"], cfg=cfg)
-        return
-    sc = np.abs(eg["x"]).max() + np.abs(x0v).max() + 1e-300
-    d = np.abs(eg["x"] - sg["x"]).max()
-    import os
-    if os.environ.get("C15_DEBUG"):
-        with open("/tmp/agF/dbg.txt", "a") as fh:
-            fh.write(f"{d/sc:.3e} i={ck.i} {eg["info"]} {sg["info"]} {eg["nit"]} {rs.layout(s['layout']).n} {s['klass']}\n")
-    if d > 1e-7 * sc:
-        ck.violation("cg:eager-vs-static-x", "eager and compiled CG return different solutions",
-                     maxdev=float(d), scale=float(sc), cfg=cfg)
-    # traces agree as well (energy per iteration)
-    te = {t[0]: t for t in eg["trace"]}
-    ts = {t[0]: t for t in sg["trace"]}
-    common = [k for k in te if k in ts and k > 0]
-    if common:
-        ck.hit("trace_comparisons", len(common))
